@@ -147,6 +147,13 @@ def harnesses(rep, cfg, modpath):
         return vcs
     H("ed_compress", "vp_ed_compress", b_compress)
 
+    def b_zeroize(it):
+        p = put_point(it, "p", [V("X"), V("Y"), V("Z"), V("T")])
+        if "vp_ed_zeroize" not in it.mod.funcs: return [("zeroize wrapper present (feature zeroize)", False)]
+        it.call("vp_ed_zeroize", [p])
+        return [("zeroize() leaves the identity: coordinate %d" % i, a - b) for i, (a, b) in enumerate(zip(get_fes(it, p, 4), [ZERO, ONE, ONE, ZERO]))]
+    H("ed_zeroize resets to the identity", "vp_ed_zeroize", b_zeroize)
+
     def b_decompress(it):
         s = ByteString(it, "s"); inp = it.new_region("in", 32); s.store(it, inp)
         out = it.new_region("out", 4 * it.fesize)
